@@ -129,6 +129,10 @@ def _let(pat, scr):
         return ("op", "==", [("call", "slice::len", [scr]), ("lit", str(n))])
     if scr[0] == "call" and scr[1] == "Option::map" and len(scr[2]) == 2 and re.fullmatch(r"(v1|Option)::Some\([$_]\)", pat):
         return _let(pat, scr[2][0])         # opt.map(f) is Some exactly when opt is
+    if scr[0] == "call" and scr[1] == "Option::and_then" and len(scr[2]) == 2 and scr[2][1][0] == "closure" and scr[2][1][2] == 1 \
+            and re.fullmatch(r"(v1|Option)::Some\([$_]\)", pat):
+        # opt.and_then(f) is Some exactly when opt is Some(v) and f(v) is Some
+        return ("op", "&&", [_let("v1::Some($)", scr[2][0]), _let(pat, _apply(scr[2][1], _proj_some(scr[2][0])))])
     return ("iflet", pat, scr)
 
 
@@ -422,7 +426,8 @@ class Norm:
         self._fn_block = fb if isinstance(fb, dict) else None
         self._strip_early = set()
         self._loop_blocks = set()      # bodies of `for` loops: `continue` leaves exactly that block
-        self._ret_blocks = {id(fb)} if isinstance(fb, dict) else set()      # blocks whose `return` / `?` leave exactly that block: fn and closure bodies
+        self._ret_blocks = set()      # blocks whose value is the value of the fn / closure: `return v` there is just the value v
+        _mark_tail(fb, self._ret_blocks)
         self.def_ctx = {}    # local id -> (closure depth, guards) at its `let`
         self.defs = {}       # local id -> binding record
         self.mut = set()     # ids declared `mut` or by-ref-mut
@@ -535,7 +540,7 @@ class Norm:
             cb = n["body"]
             while isinstance(cb, dict) and cb.get("k") in ("DropTemps", "Use"):
                 cb = cb["e"]
-            self._ret_blocks.add(id(cb))
+            _mark_tail(cb, self._ret_blocks)
             self.closure_depth[n["def"]] = depth + 1
             for i, p in enumerate(n["params"]):
                 self._bind_pat(p, ("cparam", depth + 1, i, n["def"]), ())
@@ -1117,7 +1122,7 @@ class Norm:
                     t = t[3][acc]
                 elif t[0] == "call" and t[1] == v and acc.isdigit() and int(acc) < len(t[2]):
                     t = t[2][int(acc)]
-                elif t[0] == "call" and t[1] == "Option::map" and v in ("v1::Some", "Option::Some") and acc == "0" and len(t[2]) == 2 and t[2][1][0] == "closure":
+                elif t[0] == "call" and t[1] in ("Option::map", "Option::and_then") and v in ("v1::Some", "Option::Some") and acc == "0" and len(t[2]) == 2 and t[2][1][0] == "closure":
                     t = _proj_some(t)
                 elif t[0] == "call" and t[1] in ("slice::split_first",) and len(t[2]) == 1 and v in ("v1::Some", "Option::Some") and acc == "0":
                     t = ("tup", [("index", t[2][0], ("lit", "0")), ("index", t[2][0], _RANGE_FROM_1)])     # xs.split_first() = (xs[0], xs[1..])
@@ -1192,7 +1197,7 @@ class Norm:
                             return ("closure", n[1] - 1, n[2], n[3])
                         return None
                     return rewrite(f[3], beta)
-                return ("call", "(" + show(f) + ")", args)
+                return ("call", "@call", [f] + args)
             if e.get("x") is not None and c.startswith("syn::__private::parse") and T.is_template_block(T.strip_keep_block(e["args"][0])) or \
                (c.startswith("syn::__private::parse") and e["args"] and T.is_empty_template(e["args"][0])):
                 return self._tpl(e["args"][0], "parse_quote:" + e.get("ty", ""))
@@ -1351,7 +1356,13 @@ class Norm:
                     handled = False
                     if inner.get("k") == "If":
                         tt = self._t(inner["then"])
-                        if _diverges(tt):
+                        if "else" not in inner and tt[0] == "early" and _is_unit(tt[2]) and tt[1] and all(_diverges(v) for _c, v in tt[1]):
+                            # if c1 { if c2 { return v } }   is the guard clause   if c1 && c2 { return v }
+                            handled = True
+                            c1 = self._t(inner["cond"])
+                            for c2, v in tt[1]:
+                                early.append((("op", "&&", [c1, c2]), v))
+                        elif _diverges(tt):
                             handled = True
                             early.append((self._t(inner["cond"]), tt))
                             if "else" in inner:
@@ -1435,6 +1446,9 @@ class Norm:
                         tail = ("lit", "()")
                 if id(e) in self._ret_blocks:
                     return _ret_chain(early2, tail)      # guard clauses of the function body are an if / else chain
+                early2, tail = _guards_to_try(early2, tail)      # `else { return Err(e) }` / `else { return None }` is `?` at any depth
+                if not early2:
+                    return tail
                 if id(e) in self._loop_blocks and all(v == ("continue",) and c != ("lit", "match") for c, v in early2):
                     # `if c { continue }` filters of a loop body are an if / else chain around the rest of the body
                     return _unreturn(("early", [(c, ("ret", ("lit", "()"))) for c, _v in early2], tail))
@@ -1834,6 +1848,8 @@ def _proj_some(O):
         d = O[2][1][1]
         inner = _proj_some(O[2][0])
         return _apply(O[2][1], inner)
+    if O[0] == "call" and O[1] == "Option::and_then" and len(O[2]) == 2 and O[2][1][0] == "closure" and O[2][1][2] == 1:
+        return _proj_some(_apply(O[2][1], _proj_some(O[2][0])))
     return ("proj", O, "v1::Some", "0")
 
 
@@ -1917,6 +1933,27 @@ def _continue_guard(st):
     elif sk == "SLet" and "els" in st and _only_continue(st["els"]):
         return ("arm", st["init"], pat_repr(st["pat"]))
     return None
+
+
+def _mark_tail(node, acc):
+    """blocks in tail position of a fn / closure body (through block tails, if / else branches and match arms)"""
+    n = node
+    while isinstance(n, dict) and n.get("k") in ("DropTemps", "Use"):
+        n = n["e"]
+    if not isinstance(n, dict):
+        return
+    k = n.get("k")
+    if k == "Block":
+        acc.add(id(n))
+        if "expr" in n["b"]:
+            _mark_tail(n["b"]["expr"], acc)
+    elif k == "If":
+        _mark_tail(n["then"], acc)
+        if "else" in n:
+            _mark_tail(n["else"], acc)
+    elif k == "Match" and n.get("src") == "Normal":
+        for a in n["arms"]:
+            _mark_tail(a["body"], acc)
 
 
 def _may_diverge(node):
@@ -2188,6 +2225,8 @@ def _show(t):
     if k == "try":
         return _show(t[1]) + "?"
     if k == "call":
+        if t[1] == "@call" and t[2]:
+            return "(" + _show(t[2][0]) + ")(" + ",".join(_show(a) for a in t[2][1:]) + ")"
         return t[1] + "(" + ",".join(_show(a) for a in t[2]) + ")"
     if k == "closure":
         return "|%d|{" % t[2] + _show(t[3]) + "}"
